@@ -1,5 +1,26 @@
 # per-property configuration of the check driver
 PROPS = {
+    "C11": {
+        "level_text": "CreateTokenRequestWithBlind(s) is executed twice symbolically with equal arguments and independent nondeterminism: the request bytes must be equal (no randomness or hidden state is consulted), each batch element must equal the element its own (nonce, blind) pair yields alone, and the finalized tokens for two arbitrary blinds must be byte-identical (the ideal VOPRF / blind-RSA output does not mention the blind). The shipped Rust vectors are replayed as translator-validation input, not as a solver verdict.",
+        "level_note": "The for-all-pairs-of-blinds part is decided down to the dependency boundary: that unblinding cancels blinding inside circl is the dependency contract.",
+        "explanation": "fixed_blind harnesses per type",
+        "assumptions": ["DeterministicBlind / FixedBlind are functions of (inputs, blinds, salt, key)", "VOPRF output F(k, x) and RSA signature Sig(sk, m, salt) do not depend on the blind"],
+        "outside": ["cancellation of the blind inside circl", "byte agreement with the Rust vectors (concrete data, validation only)"],
+    },
+    "C01": {
+        "level_text": "The whole honest run of each token type (create request -> Marshal -> fresh Unmarshal -> Evaluate -> response bytes -> Finalize -> Verify) is executed symbolically over the dependency contracts; the solver shows that no step can fail and that the token is type||nonce||SHA-256(challenge)||key_id||authenticator with the authenticator length of its type, for every challenge within the length bound, every nonce / key / blind value.",
+        "level_note": "Relative to the ideal-functionality contracts of VOPRF, blind RSA, HPKE, ECDSA and the hashes (DESIGN.md Appendix B); challenge lengths are case-split up to the bound.",
+        "explanation": "honest_<type> harnesses",
+        "assumptions": ["dependency contracts of Appendix B"],
+        "outside": ["correctness of the dependencies themselves", "challenges longer than the bound"],
+    },
+    "C02": {
+        "level_text": "Client finalization is executed symbolically on honest-then-perturbed responses (every bit position, foreign key, foreign request, dropped/duplicated/swapped batch elements) and on arbitrary response bytes: the solver shows that every perturbed response is rejected and that success implies a token that verifies under the issuer key and carries the request's nonce, digest and key id (also on a second finalization after the caller overwrote the first token).",
+        "level_note": "Relative to the ideal VOPRF / blind-RSA / AEAD contracts (a proof verifies iff it was produced for exactly these elements under the pinned key).",
+        "explanation": "client_rejects / success_implies_valid / refinalize harnesses per type",
+        "assumptions": ["dependency contracts of Appendix B"],
+        "outside": ["soundness of DLEQ, RSA-PSS and AEAD themselves"],
+    },
     "C10": {
         "level_text": "Verify of the type-1 and type-5 issuers is executed symbolically over the ideal VOPRF model: for every token with field lengths in the stated ranges the solver decides accept <=> authenticator == F(k, type||nonce||context||key_id) (the oracle input is concatenated independently by the harness), and that any changed field / authenticator / key is rejected (F injective).",
         "level_note": "Relative to the VOPRF contract (FullEvaluate is a deterministic injective function of key and exact input bytes); circl itself is not verified.",
